@@ -457,9 +457,86 @@ def prove_stop(src_root, ex: Explorer, res):
     ex.run(background_task, 'background-task')
 
 
+def prove_task_bookkeeping(src_root, ex: Explorer):
+    """stop() cancels what the task lists hold (C16.stop.covers#*): the lists must hold every task that is still pending.  For each of the
+    three lists: the creating handler, run with an EARLIER pending task in the list, keeps that task and adds every task it creates; the
+    done-callback it installs removes the finished task and nothing else."""
+    def check(ctx, it, tag, owner, attr, old, before_tasks):
+        now = owner.attrs[attr]
+        lst = list(now) if isinstance(now, list) else None
+        created = [t for t in it.aio.tasks if not any(t is b for b in before_tasks)]
+        ctx.prove(f'C16.tasks.tracked#{tag}.keeps-pending', lst is not None and any(x is old for x in lst),
+                  f'a task that is still pending dropped out of {attr} when new tasks were started: stop() neither cancels nor awaits it')
+        ctx.prove(f'C16.tasks.tracked#{tag}.registers-new', lst is not None and bool(created) and all(any(x is t for x in lst) for t in created),
+                  f'{len(created)} task(s) created, {0 if lst is None else len(lst) - 1} registered in {attr}')
+        if lst is None or not created:
+            return
+        t = created[0]
+        ok = len(t.callbacks) == 1
+        if ok:
+            t.done = True
+            try:
+                it.call(t.callbacks[0], [t], {})
+            except PyRaise as pr:
+                ok = False
+            after = owner.attrs[attr]
+            after = list(after) if isinstance(after, list) else []
+            ok = ok and not any(x is t for x in after) and any(x is old for x in after) and all(any(x is c for x in after) for c in created[1:])
+        ctx.prove(f'C16.tasks.tracked#{tag}.callback-removes-the-finished-task-only', ok,
+                  'the done-callback must take the finished task out of the list and leave the pending ones in it')
+
+    def distributed(ctx: Ctx):
+        it = mk(src_root, ctx)
+        old = A.TaskVal(it.aio, None, 'potential-parent-earlier')
+        entries = [Stub('entry', username='p0', ip='1.2.3.4', port=1), Stub('entry', username='p1', ip='1.2.3.5', port=2)]
+        msg = Stub('PotentialParents.Response', entries=entries)
+        settings = Stub('settings', debug=Stub('debug', search_for_parent=True))
+        net = Stub('network', create_peer_connection=Recorder('create_peer_connection', is_async=True))
+        dn = new(it, 'distributed', 'DistributedNetwork', _settings=settings, _network=net, potential_parents=[], _potential_parent_tasks=[old])
+        it.natives['aioslsk.utils.task_counter'] = Native('task_counter', lambda it2, a, k: 1)
+        before = list(it.aio.tasks)
+        run(it, it.getattr(dn, '_on_potential_parents'), msg, Opaque('server'))
+        check(ctx, it, 'DistributedNetwork._potential_parent_tasks', dn, '_potential_parent_tasks', old, before + [old])
+    ex.run(distributed, 'tasks-distributed')
+
+    def network(ctx: Ctx):
+        it = mk(src_root, ctx)
+        old = A.TaskVal(it.aio, None, 'connect-to-peer-earlier')
+        net = new(it, NET, 'Network', _create_peer_connection_tasks=[old])
+        it.natives['aioslsk.utils.task_counter'] = Native('task_counter', lambda it2, a, k: 1)
+        before = list(it.aio.tasks)
+        run(it, it.getattr(net, '_on_connect_to_peer'), Opaque('ConnectToPeer.Response'), Opaque('server'))
+        check(ctx, it, 'Network._create_peer_connection_tasks', net, '_create_peer_connection_tasks', old, before + [old])
+    ex.run(network, 'tasks-network')
+
+    def search(ctx: Ctx):
+        from contracts.C14 import mk_search_manager
+        it = mk(src_root, ctx)
+        w = mk_search_manager(it, ctx)
+        ctx.assume(z3.And(z3.Not(w['blocked']), w['nv'] > 0))
+        old = A.TaskVal(it.aio, None, 'search-reply-earlier')
+        w['mgr'].attrs['_search_reply_tasks'] = [old]
+        before = list(it.aio.tasks)
+        run(it, it.getattr(w['mgr'], '_query_shares_and_reply'), 7, 'asker', 'query')
+        check(ctx, it, 'SearchManager._search_reply_tasks', w['mgr'], '_search_reply_tasks', old, before + [old])
+    ex.run(search, 'tasks-search')
+
+
+def prove_disconnect_relies(src_root, ex: Explorer):
+    """The decision not to reconnect is the cancellation of the watchdog task at CLOSING (C16.watchdog.*).  When the connection is lost from
+    within that task (re-login answered with a close), the CancelledError arrives at the next suspension, inside disconnect(): disconnect
+    must finish the close AND let the cancellation through, otherwise the watchdog outlives its cancellation and stop().  This is the C10
+    contract of disconnect (all start states x all outcomes of wait_closed), discharged here as well."""
+    from contracts import C10
+    C10.prove_disconnect(src_root, ex)
+    for ob in ex.obligations:
+        if ob.name.startswith('C10.disconnect.'):
+            ob.name = 'C16.watchdog.cancellation-passes-disconnect.' + ob.name[len('C10.disconnect.'):]
+
+
 def items(src_root, tier):
-    return [('login', None), ('ports', None), ('user', None), ('room', None), ('interest', None), ('shares', None), ('destroy', None),
-            ('watchdog', None), ('stop', None)]
+    return [('disconnect-relies', None), ('login', None), ('ports', None), ('user', None), ('room', None), ('interest', None), ('shares', None), ('destroy', None),
+            ('watchdog', None), ('stop', None), ('tasks', None)]
 
 
 def run_item(src_root, item, tier):
@@ -471,7 +548,8 @@ def run_item(src_root, item, tier):
             prove_stop(src_root, ex, res)
         else:
             {'login': prove_login, 'ports': prove_network_ports, 'user': prove_user_session, 'room': prove_room_session,
-             'interest': prove_interest_session, 'shares': prove_shares_session, 'destroy': prove_destroy, 'watchdog': prove_watchdog}[kind](src_root, ex)
+             'interest': prove_interest_session, 'shares': prove_shares_session, 'destroy': prove_destroy, 'watchdog': prove_watchdog,
+             'tasks': prove_task_bookkeeping, 'disconnect-relies': prove_disconnect_relies}[kind](src_root, ex)
     except Unsupported as e:
         res.errors.append(f'{kind}: unsupported: {e}')
     collect(res, ex)
